@@ -377,4 +377,7 @@ META = {
     "trusted_base": ["z3 5.1 / cvc5", "pyvc symbolic executor", "dict.pop / list.append / tuple slicing dependency specs"],
 }
 
-from contracts import c06_emit as _e; TASKS = list(TASKS) + _e.TASKS
+try:  # compiler-side half (c06_emit.py); a failure to load it must not take the runtime half down
+    from contracts import c06_emit as _e; TASKS = list(TASKS) + list(_e.TASKS)
+except Exception as _ex:  # noqa
+    import sys as _sys; print(f"contracts.c06_emit not loaded: {_ex!r}", file=_sys.stderr)
